@@ -230,7 +230,7 @@ Definition node_panics (e : sexpr) (st : rstate) : Prop :=
   | SBin l op r =>
     exists v1 st1 v2 st2,
       eval hosts off l st = (Ok v1, st1) /\ eval hosts off r st1 = (Ok v2, st2) /\
-      is_eq_op op = true /\ uncomparable v1 v2 = true            (* == != === !== on arrays, maps, functions *)
+      is_eq_op op = true /\ uncomparable v1 v2 = true            (* == != === !== on two arrays, two maps, the same function *)
   | SSel a _ _ _ =>
     exists t st1, eval hosts off a st = (Ok (VTime t), st1)     (* field of a struct without that field *)
   | SCall f args sp =>
